@@ -65,7 +65,13 @@ def _check_option(buf, labels):
     v2, rest2 = hdr.SOMEIPSDOption.parse(bytes(b2))
     require(v2 == v and bytes(rest2) == b"", "C20.option-cycle", lambda: f"option {buf[:40].hex()} -> {v!r} -> {bytes(b2).hex()} -> {v2!r} rest={bytes(rest2).hex()}")
     consumed = bytes(buf[: len(buf) - len(rest)])
-    wo = wire.decode_options_array(consumed)
+    try:
+        wo = wire.decode_options_array(consumed)
+    except wire.WireError:
+        # the library accepted bytes the independent decoder calls malformed: whether to accept them is not
+        # this property's question; the kept-information comparison is impossible, the value cycle was checked
+        labels.append("independent-decoder-rejects-accepted-input")
+        return True, False
     w2 = wire.decode_options_array(bytes(b2))
     require(_sem_opts(wo) == _sem_opts(w2) == [option_desc(v)], "C20.option-kept",
             lambda: f"input {consumed.hex()} means {_sem_opts(wo)}, re-encoded {bytes(b2).hex()} means {_sem_opts(w2)}, value {option_desc(v)}")
@@ -121,7 +127,10 @@ def run_case(case):
     v2, rest2 = hdr.SOMEIPSDHeader.parse(b2)
     require(v2 == v and bytes(rest2) == b"", "C20.sd-cycle", lambda: f"input {data[:80].hex()} re-encoded {b2[:80].hex()}: values differ or rest={bytes(rest2).hex()}")
     consumed = data[: len(data) - len(rest)]
-    w1 = wire.decode_sd(consumed)
+    try:
+        w1 = wire.decode_sd(consumed)
+    except wire.WireError:
+        return ok(nontrivial, labels + ["accepted", "independent-decoder-rejects-accepted-input"])
     w2 = wire.decode_sd(b2)
     require(w1["flags"] == w2["flags"], "C20.flags-kept", lambda: f"flags {w1['flags']:#x} -> {w2['flags']:#x}")
     require(_sem_opts(w1["options"]) == _sem_opts(w2["options"]), "C20.options-kept",
